@@ -902,7 +902,10 @@ func (m *MutableOverlayWorld) AddTag(id b6.FeatureID, tag b6.Tag) error {
 			return fmt.Errorf("No feature with ID %s", id)
 		}
 		if indexedAfter {
-			f = NewFeatureFromWorld(base)
+			// Copy the feature as it currently reads, including tags
+			// modified through m.tags, which the copy supersedes.
+			f = NewFeatureFromWorld(m.tags.WrapFeature(base))
+			delete(m.tags, id)
 			f.ModifyOrAddTag(tag)
 			m.features.AddFeature(f)
 			m.references.AddFeature(f)
@@ -927,9 +930,11 @@ func (m *MutableOverlayWorld) RemoveTag(id b6.FeatureID, key string) error {
 		if base == nil {
 			return fmt.Errorf("No feature with ID %s", id)
 		}
-		if tag := base.Get(key); tag.IsValid() {
+		current := m.tags.WrapFeature(base) // Includes tags modified through m.tags
+		if tag := current.Get(key); tag.IsValid() {
 			if _, indexed := b6.TokenForTag(tag); indexed {
-				f = NewFeatureFromWorld(base)
+				f = NewFeatureFromWorld(current)
+				delete(m.tags, id)
 				f.RemoveTag(key)
 				m.features.AddFeature(f)
 				m.references.AddFeature(f)
